@@ -68,6 +68,11 @@ def jobs(tier, seed):
     # extreme scale: total 1 with noise 2e-5 (loss ~1e10 at the start; the first accepted mirror-descent step is ~2^-30 of the default one)
     for si in ([2, 3, 5] if tier == 'quick' else [0, 2, 3, 5, 9, 20]):
         out.append({'dom': 3, 'si': si, 'truth': 'pos', 'engine': 'MD', 'total': 'known', 'iters': 3000, 'tau': 1e-2, 'seed': seed, 'scale': 'tiny-noise'})
+    # a total below one record (known and left to be estimated: the estimate is floored at 1)
+    for si in ([4, 11, 30] if tier == 'quick' else [1, 4, 11, 17, 30, 44]):
+        for eng in ['MD', 'RDA', 'IG']:
+            out.append({'dom': 3, 'si': si, 'truth': 'pos', 'engine': eng, 'total': 'known' if si % 2 == 0 else 'none', 'iters': 600 if tier == 'quick' else 3000,
+                        'tau': 1e-2 if tier == 'quick' else 1e-3, 'seed': seed, 'scale': 'small-total'})
     return out
 
 
@@ -91,6 +96,9 @@ def problem_for(job):
     if job['dom'] == 5:
         struct = STRUCTS5[job['si']]
         return ATTRS5, SIZES5, struct, M.Problem(ATTRS5, SIZES5, struct, job['si'], job['truth'], job['seed'], kinds=['dense', 'sparse', 'none', 'prefix'])
+    if job.get('scale') == 'small-total':
+        struct = M.structures(M.MENU3, 3)[job['si']]
+        return M.ATTRS3, M.SIZES3, struct, M.Problem(M.ATTRS3, M.SIZES3, struct, job['si'], job['truth'], job['seed'], total=0.4, noise_mult=0.02)
     if job.get('scale') == 'tiny-noise':
         struct = M.structures(M.MENU3, 3)[job['si']]
         return M.ATTRS3, M.SIZES3, struct, M.Problem(M.ATTRS3, M.SIZES3, struct, job['si'], job['truth'], job['seed'], total=1.0, noise_mult=1.0,
